@@ -22,7 +22,10 @@ SPEC = dict(
           "IMMEDIATE/GRACEFUL); 1-8 submitters x up to 24 submissions, each [task kind, API, pause (none/yield/spin/sleep/longer "
           "than idle timeout), child spec]; nested tasks submit 1-3 children from inside a worker; end = destructor | stop() | "
           "shutdown() | drain()+destructor | drain()+stop() once a generated number of submissions completed plus a generated "
-          "delay. Non-trivial = shutdown began with a non-empty queue, or >=2 submitters were inside a submission at the same "
+          "delay. pool_slow: 6 pools per case (max 1-2, every worker inside a task that still needs 5.25-5.9 s / 6.4-7.0 s / "
+          "7.2-8.8 s when the end call comes - just beyond the 5 s poll, just beyond the 5 s + 10 ms + 1 s polls of shutdown(), "
+          "well beyond both - plus 1-3 short tasks queued behind), end calls rotated over shutdown() | drain(1-1200 ms)+stop() | "
+          "stop() | destructor | drain(short)+destructor; every such case is non-trivial. pool: non-trivial = shutdown began with a non-empty queue, or >=2 submitters were inside a submission at the same "
           "time, or a worker idle-exit was observed between two submissions; distinct by hash of the plan text."),
     assumptions=["initialSize <= maxSize (documented as minimum and hard limit; the generator clips)",
                  "ShutdownMode::DETACHED is excluded: it is documented as leaking running threads past destruction",
@@ -33,9 +36,13 @@ SPEC = dict(
     units=[
         pbt("c09_pool", "harness/c09_pool.cpp", dict(
             pool=P(150, 3000, 16, 16, extra=_NOSHRINK, q_secs=45, t_secs=600),
-        ), flags=["-DC09_INTERPOSE"]),
+            # each case = 6 pools side by side whose workers still need 5.25-8.8 s when the end call is made
+            # (beyond shutdown()'s 5 s and 5 s + 1 s polls and the destructor's 5 s drain); ~9 s wall, no CPU
+            pool_slow=P(1, 6, 4, 8, extra=_NOSHRINK, q_secs=60, t_secs=600),
+        ), flags=["-DC09_INTERPOSE"], parallel=24),
         pbt("c09_tsan", "harness/c09_pool.cpp", dict(
             pool=P(120, 2000, 16, 16, extra=_NOSHRINK, q_secs=45, t_secs=600),
-        ), san="tsan", tsan_scope=["thread_pool.hpp"]),
+            pool_slow=P(1, 4, 2, 4, extra=_NOSHRINK, q_secs=60, t_secs=600),
+        ), san="tsan", parallel=24, tsan_scope=["thread_pool.hpp"]),
     ],
 )
